@@ -26,7 +26,7 @@ theorem enqueueQ_hist (b : Bool) (e : Ev) (s : St) : (enqueueQ b e s).hist = s.h
   unfold enqueueQ; split <;> rfl
 
 theorem hooksFlagged_traceOK (u : UEnv) (m : Machine) : HooksTraceOK (hooksFlagged u m) :=
-  ⟨enqueueQ_trace false, enqueueQ_trace false, enqueueQ_hist false, enqueueQ_hist false⟩
+  ⟨enqueueQ_trace true, enqueueQ_trace true, enqueueQ_hist true, enqueueQ_hist true⟩
 theorem hooksAsyncStart_traceOK (u : UEnv) (m : Machine) : HooksTraceOK (hooksAsyncStart u m) :=
   ⟨enqueueQ_trace false, enqueueQ_trace false, enqueueQ_hist false, enqueueQ_hist false⟩
 theorem hooksAsync_traceOK (u : UEnv) (m : Machine) : HooksTraceOK (hooksAsync u m) :=
